@@ -696,6 +696,66 @@ fn main() {
                     }
                 }
             }
+            // 5. files in the older library formats (schema section without memory annotations), plain and compressed:
+            //    the stored schema is decoded in the format the header names, whatever the container, so both load
+            //    like the current-format file of the same value
+            {
+                use std::io::Write as _;
+                let sel = selected(&reg, &a);
+                let mut r = Rng::new(name_seed(a.seed, "old-format-files", 6));
+                for _ in 0..(a.cases * 25).min(sel.len() * 2) {
+                    let e = sel[r.below(sel.len() as u64) as usize];
+                    if e.tags.contains(&"zstseq") {
+                        continue;
+                    }
+                    let v = e.current();
+                    let sb2 = (e.schema_bytes)(v, 2);
+                    let (_w, _c, res) = (e.gen_save)(&mut r, a.size.min(5), v, Kind::Plain);
+                    let Ok(cur) = res else { continue };
+                    if cur.len() < 16 + sb2.len() || cur[16..16 + sb2.len()] != sb2[..] {
+                        continue;
+                    }
+                    let payload = &cur[16 + sb2.len()..];
+                    let reference = (e.load)(Kind::Plain, v, PASSWORD, &cur);
+                    for libver in [0u16, 1u16] {
+                        let sb = if libver == 0 {
+                            let Ok((schema, _)) = schemagen::de_schema(&sb2, 2) else { continue };
+                            let Some(b) = schemagen::ser_schema_v0(&schema) else { continue };
+                            b
+                        } else {
+                            (e.schema_bytes)(v, libver as u32)
+                        };
+                        // the stored schema section alone: the real decoder and the model's, on the same bytes
+                        let reply = match schemagen::de_schema(&sb, libver) {
+                            Ok((back, rest)) => format!("(ok {} {})", hex(&schemagen::ser_schema(&back, 2)), rest),
+                            Err(e) => e,
+                        };
+                        writeln!(out, "(decschema {} {})\t{}", libver, hex(&sb), reply).unwrap();
+                        let mut plain = cur[..9].to_vec();
+                        plain.extend_from_slice(&libver.to_le_bytes());
+                        plain.extend_from_slice(&cur[11..15]);
+                        let mut comp = plain.clone();
+                        plain.push(0);
+                        plain.extend_from_slice(&sb);
+                        plain.extend_from_slice(payload);
+                        comp.push(1);
+                        let mut enc = bzip2::write::BzEncoder::new(Vec::new(), bzip2::Compression::best());
+                        enc.write_all(&sb).unwrap();
+                        enc.write_all(payload).unwrap();
+                        comp.extend_from_slice(&enc.finish().unwrap());
+                        let rp = (e.load)(Kind::Plain, v, PASSWORD, &plain);
+                        let rc = (e.load)(Kind::Compressed, v, PASSWORD, &comp);
+                        let strip = |x: &str| x.rsplit_once(' ').map(|(a, _)| a.to_string()).unwrap_or(x.to_string());
+                        *stats.entry(format!("old-format-{}-{}", libver, rp.trim_matches(|c| c == '(' || c == ')').split(' ').next().unwrap_or(""))).or_default() += 1;
+                        if strip(&rp) != strip(&rc) {
+                            writeln!(out, "!C13 old-format-file-loads-differently-when-compressed type={} libver={} plain={} compressed={}", e.name, libver, &rp[..rp.len().min(100)], &rc[..rc.len().min(100)]).unwrap();
+                        }
+                        if strip(&rp) != strip(&reference) && !e.tags.contains(&"ignore") {
+                            writeln!(out, "!C13 old-format-file-loads-differently type={} libver={} current-format={} old-format={}", e.name, libver, &reference[..reference.len().min(100)], &rp[..rp.len().min(100)]).unwrap();
+                        }
+                    }
+                }
+            }
             for (k, v) in stats {
                 writeln!(out, "#stat {} {}", k, v).unwrap();
             }
@@ -879,6 +939,29 @@ fn main() {
                                         // documented: Removed (not AbiRemoved) fields and later variants cannot be written at old versions
                                         writeln!(out, "(enc @{} {} {})\t{}", ei.name, j, wire, reply).unwrap();
                                         *stats.entry(format!("down-{}", reply)).or_default() += 1;
+                                    }
+                                }
+                            }
+                            // the older version written through every container and read by the older definition:
+                            // what the payload looks like must not depend on the container it is wrapped in
+                            for c in 0..a.cases.min(3) {
+                                let vseed = name_seed(a.seed, key, (i * 100 + j) as u64 * 37 + c as u64);
+                                let mut replies: Vec<(Kind, String)> = Vec::new();
+                                for kind in [Kind::Plain, Kind::NoSchema, Kind::Compressed, Kind::Encrypted] {
+                                    let mut rv = Rng::new(vseed);
+                                    let (_w, _c, res) = (ei.gen_save)(&mut rv, a.size, j, kind);
+                                    if let Ok(bytes) = res {
+                                        let rep = (ej.load)(kind, j, PASSWORD, &bytes);
+                                        let rep = rep.rsplit_once(' ').map(|(x, _)| x.to_string()).unwrap_or(rep);
+                                        replies.push((kind, rep));
+                                    }
+                                }
+                                *stats.entry("down-containers".into()).or_default() += 1;
+                                if let Some((_, first)) = replies.first() {
+                                    for (kind, rep) in replies.iter().skip(1) {
+                                        if rep != first {
+                                            writeln!(out, "!C18 container-changes-downgraded-data family={} written_by=v{} at={} plain={} {}={}", key, i, j, &first[..first.len().min(120)], kind.name(), &rep[..rep.len().min(120)]).unwrap();
+                                        }
                                     }
                                 }
                             }
